@@ -38,6 +38,22 @@ def ext_of(path: str) -> str:
 
 # ------------------------------------------------------------------------------------------------ contents
 
+IO_BUF = 8192          # buffer size of std::io::copy / BufReader: the unit in which a streaming reader sees a file
+
+
+def line_ending_run(rng, tail=b''):
+    """A text with a LONG RUN OF LINE ENDINGS in the middle: a prefix without line endings of 0 / a few / IO_BUF-1 / IO_BUF /
+    IO_BUF+1 / 2*IO_BUF / any number of bytes, then 1..3 buffers' worth of LF / CR LF / CR / a random mixture (exactly one
+    buffer, one byte less or more, just under two buffers - the shortest run that contains a whole buffer wherever it starts -
+    two, about two and a half, three), then `tail`.  Whole read buffers of such a file hold nothing but line endings, at
+    aligned and unaligned offsets (seeded change C02-5: a chunk-wise text digest took such a buffer for the end of the file)."""
+    pre = rng.choice([0, 6, IO_BUF - 1, IO_BUF, IO_BUF + 1, 2 * IO_BUF, rng.randint(1, 3 * IO_BUF)])
+    unit = rng.choice([b'\n', b'\n', b'\r\n', b'\r', None])
+    n = rng.choice([IO_BUF - 1, IO_BUF, IO_BUF + 1, 2 * IO_BUF - 1, 2 * IO_BUF, 20000, 3 * IO_BUF])
+    run = (unit * (n // len(unit) + 1))[:n] if unit else bytes(rng.choice(b'\r\n') for _ in range(n))
+    return bytes(rng.choice(b'abcdefgh ,;') for _ in range(pre)) + run + tail
+
+
 def content_pool(rng):
     """content classes of the property's quantifier; all pairwise distinct after CR/LF stripping"""
     big_text = (b'line %d\n' * 1 % 7) + bytes(rng.choice(b'abcdefgh') for _ in range(8100))
@@ -55,6 +71,9 @@ def content_pool(rng):
         'lfrun-a': b'header' + b'\n' * 20000 + b'total,A', 'lfrun-b': b'header' + b'\n' * 20000 + b'total,B',
         'crlf-aligned': b'a' * 8192 + b'\r\n' * 4096 + b'tail',
     }
+    # the same, as a dimension: prefix length x kind of line ending x run length; two texts that differ only AFTER the run
+    base = line_ending_run(rng)
+    pool['lerun-a'], pool['lerun-b'] = base + b'total,A', base + b'total,B'
     return pool
 
 
@@ -628,6 +647,12 @@ def gen_history(rng, profile='main', maxlen=12):
             h.append({'op': 'carryin', 'targets': tt, 'tob': rng.choice([None, None, None] + TOBS),
                       # (--force on a hard-linked path re-commits the SAME inode: the model follows it with St.hardLinkOf)
                       'force': rng.random() < 0.15, 'no_parallel': rng.random() < 0.5})
+            if h[-1]['force'] and len(tt) > 1:
+                # A PARALLEL forced re-commit of several targets that share one cache object races in the unchanged code (each thread
+                # removes the object and moves its own file there; the other's recheck then finds nothing: panic with NotFound at
+                # file/src/carry_in/mod.rs, about 1 run in 8; no bytes are lost).  Proposed finding, see notes/reports/round5-repoA.md;
+                # the compared histories use the serial variant.
+                h[-1]['no_parallel'] = True
         elif r < 0.74:
             h.append({'op': 'recheck', 'targets': ts, 'method': optm, 'force': rng.random() < 0.25, 'no_parallel': rng.random() < 0.5})
         elif r < 0.80:
@@ -743,3 +768,66 @@ def add_motifs(cfg, h, paths, methods):
         p = r2.choice(paths)
         h += [{'op': 'write', 'path': p, 'bytes': content(), 'cname': 'motif'}, {'op': 'emptydir', 'path': p},
               {'op': 'track', 'targets': [p], 'method': optm(), 'no_parallel': np_()}, {'op': 'delete', 'path': p}, {'op': 'recheck', 'targets': [p]}]
+    method_change_motif(r2, h, paths, methods, content, np_)
+    earlier_version_motif(r2, h, paths, methods, content, np_)
+
+
+def method_change_motif(r2, h, paths, methods, content, np_):
+    """method-change  (workspace state of a tracked path) x (recorded method) x (requested method) x (--force): the entry is the
+                    committed one / edited / replaced by a file of the user with the same bytes / deleted when
+                    `recheck --recheck-method M [--force]` runs; afterwards the entry is deleted and restored by a `recheck`
+                    WITHOUT a method (C17: the method last requested is recorded and used by later rechecks), once more after
+                    another edit + `recheck --force`"""
+    if r2.random() >= 0.14:
+        return
+    p = r2.choice(paths)
+    X = content()
+    h += [{'op': 'write', 'path': p, 'bytes': X, 'cname': 'motif'}, {'op': 'track', 'targets': [p], 'method': r2.choice([None] + methods), 'no_parallel': np_()}]
+    for _ in range(r2.choice([1, 1, 2])):
+        state = r2.choice(['edited', 'edited', 'replaced-same-bytes', 'deleted', 'committed'])
+        if state == 'edited': h.append({'op': 'write', 'path': p, 'bytes': content(), 'cname': 'motif-edit'})
+        elif state == 'replaced-same-bytes': h.append({'op': 'write', 'path': p, 'bytes': X, 'cname': 'dup'})
+        elif state == 'deleted': h.append({'op': 'delete', 'path': p})
+        # without --force an edited file is refused (nothing done, nothing recorded); a user file with the committed bytes in the
+        # place of a link, recheck with the recorded method and no --force, is the open known finding K17: forced here
+        force = state in ('edited', 'replaced-same-bytes') and r2.random() < 0.85 or state in ('deleted', 'committed') and r2.random() < 0.4
+        if state == 'replaced-same-bytes': force = True
+        h.append({'op': 'recheck', 'targets': [p], 'method': r2.choice(methods), 'force': force, 'no_parallel': np_()})
+        h += [{'op': 'delete', 'path': p}, {'op': 'recheck', 'targets': [p], 'no_parallel': np_()}]
+    if r2.random() < 0.5:
+        h += [{'op': 'write', 'path': p, 'bytes': content(), 'cname': 'motif-edit'}, {'op': 'recheck', 'targets': [p], 'force': True, 'no_parallel': np_()}]
+
+
+def earlier_version_motif(r2, h, paths, methods, content, np_):
+    """earlier-version  two paths of one extension that have had the SAME content X: the second gets it by `xvc file copy` or as a
+                    duplicate the user wrote and tracked; then one of them moves on to Y (carry-in / track), so X is the current
+                    version of one path and only an EARLIER version of the other.  Then `untrack [--restore-versions]` /
+                    `remove [--all-versions]` of one of the two, `recheck --force` of the other, and a last delete + recheck
+                    (C04: every version of a path that is still tracked stays in the cache; C05: an object that any recorded
+                    version of a path outside the targets refers to is not deleted)"""
+    if r2.random() >= 0.12:
+        return
+    p = r2.choice(paths)
+    cands = [q for q in PATHS if ext_of(q) == ext_of(p) and q != p]
+    if not cands:
+        return
+    fresh = [q for q in cands if q not in paths]
+    q = r2.choice(fresh or cands)
+    X, Y = content(), content()
+    m = lambda: r2.choice([None] + methods)
+    h += [{'op': 'write', 'path': p, 'bytes': X, 'cname': 'motif'}, {'op': 'track', 'targets': [p], 'method': m(), 'no_parallel': np_()}]
+    if r2.random() < 0.5:
+        h.append({'op': 'copy', 'src': p, 'dst': q, 'method': m(), 'no_recheck': False, 'force': q in paths})
+    else:
+        h += [{'op': 'write', 'path': q, 'bytes': X, 'cname': 'dup'}, {'op': 'track', 'targets': [q], 'method': m(), 'no_parallel': np_()}]
+    if q not in paths: paths.append(q)
+    mover, stayer = (q, p) if r2.random() < 0.65 else (p, q)
+    h.append({'op': 'write', 'path': mover, 'bytes': Y, 'cname': 'motif-edit'})
+    h.append({'op': 'carryin', 'targets': [mover], 'no_parallel': np_()} if r2.random() < 0.7 else {'op': 'track', 'targets': [mover], 'no_parallel': np_()})
+    victim, other = (stayer, mover) if r2.random() < 0.75 else (mover, stayer)
+    f = r2.random()
+    if f < 0.4: h.append({'op': 'untrack', 'targets': [victim]})
+    elif f < 0.55: h.append({'op': 'untrack', 'targets': [victim], 'restore_versions': f'../restored-{len(h)}'})
+    elif f < 0.8: h.append({'op': 'remove', 'targets': [victim], 'all_versions': False})
+    else: h.append({'op': 'remove', 'targets': [victim], 'all_versions': True})
+    h += [{'op': 'recheck', 'targets': [other], 'force': True, 'no_parallel': np_()}, {'op': 'delete', 'path': other}, {'op': 'recheck', 'targets': [other, victim]}]
